@@ -87,3 +87,10 @@ package stdlib_contracts
 //@ func (*Decoder).Token
 //@ assumed
 //@ modifies *dec
+
+//@ package sync/atomic
+//@ func StoreUint32
+//@ assumed
+//@ requires[nopanic] addr != nil
+//@ modifies *addr
+//@ ensures *addr == val
